@@ -562,7 +562,7 @@ PROPS = {
         "timeout_quick": 1200,
         "theories": ["theories/Base.v", "theories/Store.v", "theories/StoreProofs.v", "theories/Pool.v", "theories/PoolProofs.v",
                      "theories/BalanceProofs.v", "theories/Conc.v", "theories/ConcProofs.v", "theories/SerialProofs.v",
-                     "theories/Snapshot.v", "theories/SnapshotProofs.v", "theories/NonceProofs.v", "gen/Facts.v", "theories/Locks.v", "theories/LocksProofs.v", "gen/Facts.v", "theories/SerialFull.v", "theories/SoloPool.v", "theories/Mixed.v"],
+                     "theories/Snapshot.v", "theories/SnapshotProofs.v", "theories/NonceProofs.v", "gen/Facts.v", "theories/Locks.v", "theories/LocksProofs.v", "gen/Facts.v", "theories/SerialFull.v", "theories/SoloPool.v", "theories/Mixed.v", "theories/Deposit.v", "theories/DepositProofs.v"],
         "check_theories": ["theories/Check10.v"],
         "level_text": "Four parts of different strength. (a) Store operations are atomic: computed obligations over "
                       "facts regenerated from the sources (every in-memory method takes the mutex, Lock then deferred "
